@@ -210,7 +210,12 @@ fn main() {
     let addr = server.addr;
     let mut initialised = false;
     let mut judge = |l: &mut Local, method: &str, path: &str, path_class: &str, body_class: &str, chunked: bool, raw: &[u8], expect: Option<&[u16]>, initialised: bool| -> Option<u16> {
-      let r = http::send_raw(addr, raw, Duration::from_secs(20));
+      let mut r = http::send_raw(addr, raw, Duration::from_secs(20));
+      if matches!(&r, Err(e) if matches!(e.kind(), std::io::ErrorKind::TimedOut | std::io::ErrorKind::WouldBlock)) {
+        // a client-side read timeout on a loaded machine is not yet "no response": ask again, patiently
+        l.count("client_timeouts_retried_with_180s", 1);
+        r = http::send_raw(addr, raw, Duration::from_secs(180));
+      }
       let case = json!({"method": method, "path": path, "body_class": body_class, "chunked": chunked, "initialised": initialised,
         "request_head": String::from_utf8_lossy(&raw[..raw.len().min(300)]).to_string(), "body_len": raw.len()});
       l.eval();
